@@ -22,6 +22,8 @@ Compression implementations for a Transport.
 
 import zlib
 
+from paramiko.ssh_exception import SSHException
+
 
 class ZlibCompressor:
     def __init__(self):
@@ -37,4 +39,7 @@ class ZlibDecompressor:
         self.z = zlib.decompressobj()
 
     def __call__(self, data):
-        return self.z.decompress(data)
+        try:
+            return self.z.decompress(data)
+        except zlib.error as e:
+            raise SSHException("Invalid compressed data: {}".format(e))
